@@ -6,6 +6,7 @@ package plugin
 import (
 	"errors"
 	"fmt"
+	"github.com/hashicorp/go-plugin/internal/verifhook"
 	"io"
 	"log"
 	"net"
@@ -181,6 +182,7 @@ func (d *dispenseServer) Dispense(
 	// Reserve an ID for our implementation
 	id := d.broker.NextId()
 	*response = id
+	verifhook.Point("rpcserver.dispense.reserved", id)
 
 	// Run the rest in a goroutine since it can only happen once this RPC
 	// call returns. We wait for a connection for the plugin implementation
